@@ -147,3 +147,6 @@ PROPERTIES["C16"].setdefault("filter", {})["R12.GUARD"] = lambda o: o.key.starts
 PROPERTIES["C16"]["explanation"] += " Guards evaluated on 39 witness field triples (R12): every invalid triple is rejected, every valid one accepted, independent of how the conditions are spelled."
 
 PROPERTIES["C12"]["rules"] += [guard.filter_params_guard]
+
+PROPERTIES["C18"]["rules"] += [qa.qa_siblings, qa.qa_value_axes, ker.ker_modeldags, bel.masked_reduction]
+PROPERTIES["C18"]["explanation"] += " Choice axes located by the discrete problem == dense choice axes of the array (R2.QA3/QA4); policy twin (ALG2)."
